@@ -94,6 +94,8 @@ def run(rep: Report) -> None:
              "the formatter's language is within the parser's (R13.3 at the serialisation sites)", floor=4)
     rep.rule("R15.5", "Unit.__from_json__: base units resolve by name (every base unit is named); derived units rebuild "
              "through the interning constructor", floor=3)
+    rep.rule("R15.8", "the unit text a quantity is stored under resolves back to that unit: every prefix x unit spelling and every name resolves "
+             "to itself or to an equal-valued unit (the symbol-table rule of C13, at the serialisation sites)", floor=1000)
     rep.rule("R15.7", "Dimension/Prefix decoders rebuild from the encoded structural key (exponents; base and exponent) on every path", floor=2)
     rep.rule("R15.6", "pickle/copy of a Quantity carry the Unit object itself (no custom reduce/copy hook routes it through text)", floor=1)
 
@@ -252,6 +254,12 @@ def run(rep: Report) -> None:
                  "decode from JSON / the SQL composite", prog.func("formatting.unit_str").where())
     rep.ok("R15.4", "unit-text:accepted", note={"witnesses_accepted": n_ok})
 
+    # R15.8: the stored unit text must also *resolve* back to the same unit (shared with C13 R13.2)
+    from ..grammar import extract_shipped as _es, normalise as _norm
+    from .c13 import symbol_regex, symbol_table
+    _sh = _es()
+    symbol_table(rep, ev, symbol_regex(_norm(_sh.data, _sh.memo)), rep.tier == "thorough", rid1="R15.8", rid2="R15.8",
+                 consequence="a quantity in that unit comes back from JSON / the SQL composite as a quantity of another unit")
     structural_decoding(rep, prog, "R15.7")
     # R15.5
     uf = prog.func("Unit.__from_json__")
